@@ -19,6 +19,7 @@ func ruleC02(prog *Program, rep *Report) {
 	ruleAccumulators(prog, rep)
 	ruleEscapeDecode(prog, rep)
 	ruleSurrogates(prog, rep)
+	ruleBigLimitAgree(prog, rep)
 	rulePoolPut(prog, rep, "oj.Parser", "gen.Parser", "sen.Parser", "oj.Tokenizer", "oj.Validator", "sen.Tokenizer") // a parser put back before its last use mixes two callers' documents
 	rep.Rules = append(rep.Rules, "A-events: value/token events of the four JSON front-ends agree with the reference at every byte (kind of each value: null/true/false/string/number/container, key vs value) - see C03")
 	rep.Rules = append(rep.Rules, "N-mirror: once a number no longer fits the accumulators its bytes are collected as text (Number.BigBuf); for every reachable step of the JSON front-ends (and of the SEN front-ends on JSON numbers) in which the reference is inside a number before and after the byte, the arm either adds the dispatched byte to BigBuf (directly, or through a Number method whose first case does so when the buffer is in use) or is on a path that tested the buffer to be empty: no sign, digit, point or exponent marker of a big number is dropped")
@@ -730,5 +731,146 @@ func ruleSurrogates(prog *Program, rep *Report) {
 	}
 	if n < 4 {
 		rep.Errorf("N-surrogate found %d decoding front-ends (floor 4)", n)
+	}
+}
+
+// ---------------------------------------------------------------- N-limit
+
+// ruleBigLimitAgree: the in-buffer digit loops of the front-ends and the
+// Number methods used when digits arrive one at a time must switch to the text
+// form at the same point, otherwise the type of the parsed number (int64 or
+// float64 versus json.Number / gen.Big) depends on how the input is chunked.
+// Both sides are normalised to "a further digit is accumulated iff <field> REL
+// BigLimit holds before it is added" (pre) or to the test made after adding
+// (post).
+func ruleBigLimitAgree(prog *Program, rep *Report) {
+	rep.Rules = append(rep.Rules, "N-limit: every digit loop of a front-end that accumulates num.I or num.Frac itself guards the accumulation with the same test against BigLimit, at the same place (before or after adding), as Number.AddDigit resp. Number.AddFrac, which accumulate when digits arrive one at a time: the kind of value a number comes back as does not depend on the chunking")
+	norm := func(e ast.Expr) (field string, rel token.Token, ok bool) {
+		be, isBin := ast.Unparen(e).(*ast.BinaryExpr)
+		if !isBin {
+			return "", 0, false
+		}
+		name := func(x ast.Expr) string {
+			s := types.ExprString(x)
+			switch {
+			case strings.HasSuffix(s, "BigLimit"):
+				return "BigLimit"
+			case strings.HasSuffix(s, ".I"):
+				return "I"
+			case strings.HasSuffix(s, ".Div"):
+				return "Div"
+			}
+			return ""
+		}
+		l, r := name(be.X), name(be.Y)
+		flip := map[token.Token]token.Token{token.LSS: token.GTR, token.GTR: token.LSS, token.LEQ: token.GEQ, token.GEQ: token.LEQ}
+		switch {
+		case l == "BigLimit" && (r == "I" || r == "Div"):
+			if f, ok := flip[be.Op]; ok {
+				return r, f, true
+			}
+		case r == "BigLimit" && (l == "I" || l == "Div"):
+			if _, ok := flip[be.Op]; ok {
+				return l, be.Op, true
+			}
+		}
+		return "", 0, false
+	}
+	negate := map[token.Token]token.Token{token.LSS: token.GEQ, token.GEQ: token.LSS, token.LEQ: token.GTR, token.GTR: token.LEQ}
+	// reference: the Number methods
+	ref := map[string]string{} // field -> normalised rule
+	if pk := prog.Pkg("gen"); pk != nil {
+		for _, f := range pk.Syntax {
+			for _, d := range f.Decls {
+				fd, ok := d.(*ast.FuncDecl)
+				if !ok || fd.Body == nil || fd.Recv == nil || (fd.Name.Name != "AddDigit" && fd.Name.Name != "AddFrac") {
+					continue
+				}
+				ast.Inspect(fd.Body, func(n ast.Node) bool {
+					cc, ok := n.(*ast.CaseClause)
+					if !ok || len(cc.List) != 1 {
+						return true
+					}
+					if fld, rel, ok := norm(cc.List[0]); ok {
+						ref[fld] = "pre:" + fld + rel.String() + "BigLimit"
+					}
+					return true
+				})
+			}
+		}
+	}
+	if len(ref) < 2 {
+		rep.Errorf("N-limit: the accumulation tests of Number.AddDigit / AddFrac were not found (%v)", ref)
+		return
+	}
+	sites := 0
+	for _, spec := range allFrontEnds {
+		pk := prog.Pkg(spec.rel)
+		if pk == nil {
+			continue
+		}
+		for _, f := range pk.Syntax {
+			for _, d := range f.Decls {
+				fd, ok := d.(*ast.FuncDecl)
+				if !ok || fd.Body == nil || fd.Recv == nil || strings.ReplaceAll(types.ExprString(fd.Recv.List[0].Type), "*", "") != spec.typ {
+					continue
+				}
+				ast.Inspect(fd.Body, func(n ast.Node) bool {
+					rs, ok := n.(*ast.RangeStmt)
+					if !ok {
+						return true
+					}
+					// the statement that accumulates: X.num.F = X.num.F*10 + ...
+					var acc *ast.AssignStmt
+					accField := ""
+					for _, st := range rs.Body.List {
+						as, ok := st.(*ast.AssignStmt)
+						if !ok || len(as.Lhs) != 1 || len(as.Rhs) != 1 {
+							continue
+						}
+						l := types.ExprString(as.Lhs[0])
+						r := strings.ReplaceAll(types.ExprString(as.Rhs[0]), " ", "")
+						if strings.HasSuffix(l, ".num.I") && strings.HasPrefix(r, l+"*10+") {
+							acc, accField = as, "I"
+						}
+						if strings.HasSuffix(l, ".num.Frac") && strings.HasPrefix(r, l+"*10+") {
+							acc, accField = as, "Div"
+						}
+					}
+					if acc == nil {
+						return true
+					}
+					sites++
+					key := fmt.Sprintf("%s.%s.%s:digit-loop:%s", spec.rel, spec.typ, fd.Name.Name, map[string]string{"I": "integer", "Div": "fraction"}[accField])
+					got := "none"
+					for _, st := range rs.Body.List {
+						ifs, ok := st.(*ast.IfStmt)
+						if !ok {
+							continue
+						}
+						fld, rel, ok := norm(ifs.Cond)
+						if !ok || fld != accField {
+							continue
+						}
+						if ifs.Pos() < acc.Pos() {
+							got = "pre:" + fld + negate[rel].String() + "BigLimit"
+						} else {
+							got = "post:" + fld + rel.String() + "BigLimit"
+						}
+					}
+					if got == ref[accField] {
+						rep.Discharge("N-limit", key, prog.Pos(rs.Pos()), "accumulates under "+got+", as the Number method")
+					} else {
+						rep.Violate(Finding{Rule: "N-limit", Key: key + ":" + got, Pos: prog.Pos(rs.Pos()),
+							Msg: fmt.Sprintf("the in-buffer digit loop accumulates under %q while the Number method used for digits that arrive one at a time accumulates under %q: a number at the limit comes back as a different kind of value depending on the chunking", got, ref[accField])})
+					}
+					return true
+				})
+			}
+		}
+	}
+	rep.Eval(sites)
+	if sites < 8 {
+		rep.Errorf("N-limit examined %d digit loops (floor 8): anchors did not resolve", sites)
 	}
 }
